@@ -77,6 +77,23 @@ class SymSet:
     def __contains__(self, x):
         return any(bool(x == y) for y in self.items)
 
+    def __eq__(self, other):
+        try:
+            others = list(other)
+        except TypeError:
+            return NotImplemented
+        return len(others) == len(self.items) and all(x in self for x in others) and all(
+            any(bool(x == y) for y in others) for x in self.items)
+
+    def __ne__(self, other):
+        r = self.__eq__(other)
+        return r if r is NotImplemented else not r
+
+    __hash__ = None
+
+    def issubset(self, other):
+        return all(x in other for x in self.items)
+
     def __repr__(self):
         return "SymSet(" + ", ".join(map(repr, self.items)) + ")"
 
@@ -179,3 +196,38 @@ def cross(a, b, **kw):
     out[..., 1] = aa[..., 2] * bb[..., 0] - aa[..., 0] * bb[..., 2]
     out[..., 2] = aa[..., 0] * bb[..., 1] - aa[..., 1] * bb[..., 0]
     return out
+
+
+def _unary(name):
+    real = getattr(np, name)
+    mfun = {"arccos": math.acos, "arcsin": math.asin, "arctan": math.atan}.get(name) or getattr(math, name)
+
+    def one(v):
+        if isinstance(v, SReal):
+            c = v.concrete()
+            if c is not None:
+                return float(real(c))
+            return getattr(v, name)()
+        return float(real(v))
+
+    def shim(x, *a, **kw):
+        CALLS[0] += 1
+        if isinstance(x, SReal):
+            return one(x)
+        if isinstance(x, np.ndarray) and x.dtype == object:
+            if a or kw:
+                raise Unsupported(f"np.{name} on an object array with extra arguments")
+            if x.shape == ():
+                return one(x.item())
+            out = np.empty(x.shape, dtype=object)
+            for i, v in np.ndenumerate(x):
+                out[i] = one(v)
+            return out
+        return real(x, *a, **kw)
+
+    shim.__name__ = "u_" + name
+    return shim
+
+
+for _n in ("sqrt", "sin", "cos", "tan", "arccos", "arcsin", "arctan", "log", "log10", "exp"):
+    globals()["u_" + _n] = _unary(_n)
